@@ -5,6 +5,8 @@ import AfkakProofs.Client.B_BootClose
 import AfkakProofs.Client.B_ComposeClose
 import AfkakProofs.Client.B_MonC20
 import AfkakProofs.Client.B_CloseAll
+import AfkakProofs.Client.B5_ComposeAgree
+import AfkakProofs.Client.B5_ComposeProj
 import AfkakProps.Open.C20
 /-!
 # C20 — closing the client fails everything pending and releases every connection
@@ -329,6 +331,54 @@ example :
     (r1.1.bcs.map (·.closed)) = [true] ∧ r2.2 = [] ∧ r3.2 = [.bc 0 .down, .cl (.closeFired 2)] := by
   refine ⟨by decide +kernel, by decide +kernel, by decide +kernel, by decide +kernel, by decide +kernel, by decide +kernel⟩
 
+/-- **`close()` in the composed model closes EVERY broker-client component** (the part of the open statement
+    `C20_composed_close_closes_every_broker_client` that holds; the excluded situation is explicit: `NoFuelC` - no
+    composed step of the history showed the client layer's `badOp "fuel"`.  Without it the statement is false of the
+    fuel-bounded interpreter: a refresh whose callback chain is cut after the instances were popped from `self.clients`
+    and before their `closeBc` ran leaves instances nobody will ever close; a witness needs > 100000 actions in one step).
+    For every run of the composition (client model × one broker-client model per instance; any network history:
+    connection attempts succeeding / failing, connections lost, replies, the clock) and a `close()` of the client in the
+    state reached - open or closed already -: when the close step ends, every broker-client COMPONENT is closed, those
+    still in `self.clients` by this close, those popped by an earlier metadata refresh at the time.  With
+    `C20_composed_no_connect_no_write_after_close`: after `close()` NO broker client below ever connects or writes.
+    Proof: the client component of a composed run is a run of the client model (`run_proj`, B5_ComposeProj.lean), so
+    `C20_close_closes_every_broker_client` applies to it; and the components agree with the client's table
+    (`Agree`, B5_ComposeAgree.lean): `route` turns exactly the `bcNew` / `bcClose` observations of a client step into
+    new components / `close` events, in order (`step_tb`, `route_tbl`), and a closed component stays closed
+    (`C10_closed_quiet`). -/
+theorem C20_composed_close_closes_every_broker_client_partial (cfg : Afkak.ClientCompose.Cfg) (evs : List Afkak.ClientCompose.Ev)
+    (hnf : Afkak.ClientCompose.NoFuelC cfg {} evs) (env : Env) (o : Nat) :
+    let s := Afkak.ClientCompose.run cfg {} evs
+    Ob.badOp "fuel" ∉ (step cfg.cl s.cl env (.close o)).2 →
+    ∀ x ∈ (Afkak.ClientCompose.step cfg s (.api env (.close o))).1.bcs, x.closed = true := by
+  intro s hf
+  obtain ⟨l, hl, hnfl⟩ := Afkak.ClientCompose.run_proj cfg evs {} hnf
+  have hl' : s.cl = l.foldl (fun s e => (step cfg.cl s e.1 e.2).1) ({} : St) := hl
+  have hci : Afkak.ClientCompose.CInv (Afkak.ClientCompose.step cfg s (.api env (.close o))).1 :=
+    Afkak.ClientCompose.step_cinv cfg s _ (Afkak.ClientCompose.run_cinv cfg evs {} Afkak.ClientCompose.cinv_init)
+  have hcl : (Afkak.ClientCompose.step cfg s (.api env (.close o))).1.cl = (step cfg.cl s.cl env (.close o)).1 := by
+    simp only [Afkak.ClientCompose.step, Afkak.ClientCompose.internal, Bool.false_eq_true, if_false]
+    exact Afkak.ClientCompose.clientStep_cl cfg s env _
+  apply Afkak.ClientCompose.all_closed_of_agree hci.agree
+  rw [hcl, hl']
+  rw [hl'] at hf
+  exact close_closes_all cfg.cl l hnfl env o hf
+
+/-! Non-vacuity: the composed run of the example above (bootstrap, metadata, a send that creates and connects broker
+    client 0) shows no fuel report; its close step closes the one component. -/
+example :
+    let cfg : Afkak.ClientCompose.Cfg := { cl := { timeout := 10, disconnectOnTimeout := false, bootHosts := [("boot", 9092)] }, bc := ⟨fun _ => 1/2⟩ }
+    let evs : List Afkak.ClientCompose.Ev :=
+      [.api { shuffles := [[], [0]] } (.load 0 []), .api {} (.bootOk 0),
+       .api {} (.bootReply 0 (.metadata [⟨1, "h1", 9092⟩] [⟨"t", 0, [⟨0, 0, 1⟩]⟩])),
+       .api {} (.send 1 [("t", 0)] none true true), .connOk 0 []]
+    Afkak.ClientCompose.NoFuelC cfg {} evs ∧
+    (Afkak.ClientCompose.run cfg {} evs).bcs.map (·.closed) = [false] ∧
+    Ob.badOp "fuel" ∉ (step cfg.cl (Afkak.ClientCompose.run cfg {} evs).cl {} (.close 2)).2 := by
+  refine ⟨?_, by decide +kernel, by decide +kernel⟩
+  simp only [Afkak.ClientCompose.NoFuelC, and_true]
+  refine ⟨by decide +kernel, by decide +kernel, by decide +kernel, by decide +kernel, by decide +kernel⟩
+
 end Afkak.Props.C20
 
 /- OBLIGATIONS
@@ -346,6 +396,7 @@ C20_model_traces_satisfy_monitor_partial
 C20_close_closes_every_broker_client
 C20_composed_closed_quiet
 C20_composed_no_connect_no_write_after_close
+C20_composed_close_closes_every_broker_client_partial
 -/
 /- OPEN_STATEMENTS
 C20_model_traces_satisfy_monitor
